@@ -147,7 +147,7 @@ func genC04(t *rapid.T) C04Case {
 		BadVars:  rapid.Bool().Draw(t, "badvars"),
 		Custom:   true, Consts: true, Aliases: true, BoolW: 8, VarW: 14,
 	}}
-	tree := wrapRoot(g.Expr(rootTy(t), g.Depth))
+	tree := wrapRoot(g.Program(rootTy(t)))
 	fixEmptyLists(tree)
 	u := UniverseFor(t, tree, false)
 	// a variable that is not bound is not available (the fetcher reports availability truthfully)
